@@ -240,8 +240,11 @@ def judge(rec, T, out, witness):
                 r = terms.refsub3(x, bb, T)
                 if r is False:
                     bad = True
-                    out.violation(dict(mech0, rule='P2-argument-outside-bound',
-                                       cause='%s-param' % ('pre-assigned' if p[0] in rec['pre'] else 'chosen')),
+                    cause = 'chosen-param'
+                    if x[0] == 'c' and bb[0] == 'c' and x[1] == bb[1] and x[1] in T.classes and any(
+                            q[2] is not None and q[2][0] == 'v' for q in T.classes[x[1]][0]):
+                        cause = 'bound-class-has-dependent-parameters'
+                    out.violation(dict(mech0, rule='P2-argument-outside-bound', cause=cause),
                                   '%s: argument %d = %s is not within the bound %s of %s' % (
                                       rec['ctor'], i, terms.term_str(a), terms.term_str(b), p[0]), w, shape)
                 elif r is None:
